@@ -49,6 +49,10 @@ def run(ck):
     import c04
     with ck.under("C04-", "C02-C04"):
         c04.rule_X(ck, lib)
+    # each unit executes once: on Incomplete run hands back its input from the unfinished unit on (what was executed is not
+    # offered again), on an error it resumes behind the message - the exits of run per path (rule C06-R)
+    import c06
+    c06.rule_R(ck, lib, "C02-C06R")
 
 
 # ---------------------------------------------------------------- C02-R
@@ -341,6 +345,13 @@ def rule_H(ck, lib):
             ok = True       # no lookup at all and no header (end of input)
         else:
             why = "first alternative is %s%s" % (names[:1], [show_term(t) for t in apps[0][1]] if apps else "")
+        # a header that is not a common command and does not resolve is an *undefined header*, whatever the compound parser
+        # stumbled over (an empty level, a byte that is no mnemonic): its failure is never handed on as it is
+        v_ = pathsum.strip_sites(x.value) if x.value is not None else None
+        raw = (v_ is not None and v_[0] in ("apply", "call") and apps and v_ == pathsum.strip_sites(apps[0][3]) and names[:1] == ["compound_command_program_header"]
+               and ps.decided(pathsum.St(x.conds), apps[0][3], OK) is not True)
+        ck.judge(not raw, "C02-H", "command_program_header:path#%d:undefined" % n, "a failure of the compound lookup ends in the common lookup's verdict or in UndefinedHeader",
+                 "the result of compound_command_program_header is returned as it is: a malformed level (`SOUR::VOLT`, `SOUR:*IDN?`) is reported with the parser's error (-101) instead of Undefined header (-113)")
         ck.judge(ok, "C02-H", "command_program_header:path#%d" % n, "compound(root, path) first, common(root) only on its failure",
                  "the header is also looked up another way: %s" % why, data=pathsum.show_exit(x)[:1200])
     ck.floor("C02-H", "paths of command_program_header", n, 2)
